@@ -152,7 +152,49 @@ fn dedups<const D: usize>(id: &str, rng: &mut Rng, out: &mut Out) {
     }
 }
 
+/// documented contract of the quantiser: grid coordinates in [0, 2^bits) for every supported
+/// scalar type (f64 and f32), every bit depth 1..=31 and coordinates on, inside and beyond the bounds;
+/// and the index of such a point stays below 2^(D*bits)
+fn quant_range(out: &mut Out) {
+    use delaunay::core::util::hilbert::{hilbert_index, hilbert_quantize};
+    let mut problems: Vec<String> = Vec::new();
+    for bits in 1u32..=31 {
+        let maxq: u64 = (1u64 << bits) - 1;
+        for (lo, hi) in [(0.0f64, 1.0f64), (-3.0, 1.0), (1.0, 1.0e6), (-1.0e-3, 1.0e-3)] {
+            for t in [0.0f64, 1.0, 0.5, 1.5, -0.5, 0.999_999_9, 1.0e-9] {
+                let x = lo + t * (hi - lo);
+                // f64
+                let c2 = [x, lo];
+                match hilbert_quantize::<f64, 2>(&c2, (lo, hi), bits) {
+                    Ok(q) => if q.iter().any(|v| u64::from(*v) > maxq) && problems.len() < 4 { problems.push(format!("f64 bits={bits} bounds=({lo},{hi}) coordinate {x}: quantised to {q:?}, outside [0, 2^{bits})")); },
+                    Err(_) => if problems.len() < 4 { problems.push(format!("f64 bits={bits}: quantiser refused a valid bit depth")); },
+                }
+                if 2 * bits <= 127 {
+                    if let Ok(ix) = hilbert_index::<f64, 2>(&c2, (lo, hi), bits) { if ix >> (2 * bits) != 0 && problems.len() < 4 { problems.push(format!("f64 bits={bits}: index {ix} >= 2^(2*bits)")); } }
+                }
+                // f32
+                let (lof, hif, xf) = (lo as f32, hi as f32, x as f32);
+                let c3 = [xf, hif, lof];
+                match hilbert_quantize::<f32, 3>(&c3, (lof, hif), bits) {
+                    Ok(q) => if q.iter().any(|v| u64::from(*v) > maxq) && problems.len() < 4 { problems.push(format!("f32 bits={bits} bounds=({lof},{hif}) coordinates {c3:?}: quantised to {q:?}, outside [0, 2^{bits})")); },
+                    Err(_) => if problems.len() < 4 { problems.push(format!("f32 bits={bits}: quantiser refused a valid bit depth")); },
+                }
+                // the two opposite corners of the box must not share an index
+                if 3 * bits <= 127 && hif > lof {
+                    let a = hilbert_index::<f32, 3>(&[lof, lof, lof], (lof, hif), bits);
+                    let b = hilbert_index::<f32, 3>(&[hif, hif, hif], (lof, hif), bits);
+                    if let (Ok(a), Ok(b)) = (a, b) { if a == b && problems.len() < 4 { problems.push(format!("f32 bits={bits} bounds=({lof},{hif}): minimum and maximum corner share Hilbert index {a}")); } }
+                }
+            }
+        }
+    }
+    out.case("qr0", "chk", "what=hilbert_quantize_range");
+    if problems.is_empty() { out.obs("same", "1"); } else { out.obs("fail", &problems.join(" / ")); }
+    out.end();
+}
+
 pub fn run(cfg: &Cfg, rng: &mut Rng, out: &mut Out) {
+    quant_range(out);
     let thorough = cfg.tier == "thorough";
     // exhaustive small grids: every (D, bits) with D*bits <= 12 (quick) / 16 (thorough)
     let cap = if thorough { 16 } else { 12 };
